@@ -60,10 +60,12 @@
   bitcask_redelivery_completes (full, single data file < 2 GiB); bitcask_append_refuted (variant O_APPEND).
 
   What start-up REDELIVERS (model `LemoModel.Wal.redeliver` / `qRestart` / `recoverBy`), theorems in
-  LemoProofs/C08Redeliver.lean (imports this file): recovery_redelivers_every_unwritten_record (full: every record of
-  tmp.data is handed to the writer again, in order, whatever the position index holds for its key — last acknowledged
-  value wins), restart_keeps_queue_invariant (full); recovery_skip_indexed_refuted, recover_skip_indexed_refuted
-  (variant seed-C08h: a record whose key is indexed is skipped — two-record witness).
+  LemoProofs/C08Redeliver.lean (imports this file): recovery_redelivers_every_unwritten_record (full, but a REPACKAGING:
+  "every record of tmp.data is handed to the writer again, in order, whatever the position index holds" is definitional for
+  the model's `redeliver false`; "last acknowledged value wins" re-exports queue_no_acked_record_lost),
+  restart_keeps_queue_invariant (re-export of restartQ_inv); recovery_skip_indexed_refuted, recover_skip_indexed_refuted
+  (variant seed-C08h: a record whose key is indexed is skipped — two-record witness; not registered, the driver never
+  runs the variant flag).
 
   NOT covered by any theorem (oracles only, see props/C08.json `partial`): ancestors by hash/height, contract code,
   trie nodes, candidate top; engine-level restart equivalence (InsertBlock of a restarted vs a continuous node).
